@@ -600,6 +600,7 @@ class Gen:
             if m["static"]:
                 self.cx.append(f"{ts} {q}::{m['name']} = {m['init']};")
         # constructors
+        h_ctor0 = len(self.h)
         nct = r.choice([1, 1, 2])
         seen_arity = set()
         for i in range(nct):
@@ -638,6 +639,7 @@ class Gen:
         self.h.append(f"{ind}{'virtual ' if virt_d else ''}~{name}();")
         self.cx.append(f"{q}::~{name}() {{ vf::unreg(this, sizeof(*this), \"{q}\"); }}")
         cls["virtual_dtor"] = virt_d
+        h_ctor1 = len(self.h)
         # methods
         nm = max(1, int(r.choice([2, 3, 4, 5]) * self.size))
         for i in range(nm):
@@ -700,6 +702,10 @@ class Gen:
                     f = self.gen_function(cls, "method", name=bm["name"], ret=bm["ret"], params=ps,
                                           const=bm["const"], virtual=True, indent=ind, override=True)
                     f["overrides"] = bm["qname"]
+                    if self.ext is True and r.random() < 0.5:
+                        # (v3) an override need not repeat the keyword: it is virtual all the same
+                        self.h[-1] = self.h[-1].replace("virtual ", "", 1)
+                        f["implicit_virtual"] = True
                     cls["methods"].append(f)
         if getattr(self, "shadow", False):
             for b, _ in bases:
@@ -743,6 +749,16 @@ class Gen:
         if r.random() < 0.5 * self.size:
             for op in r.sample(["==", "+", "[]c", "()", "neg", "cast", "<"], r.choice([1, 2, 3])):
                 cls["methods"].append(self.gen_operator(cls, op, ind))
+        if self.ext is True and r.random() < 0.35:
+            # (v3) two methods whose types differ only in the presence of a default argument (same names, same types)
+            I = T("int", c="int")
+            n4 = r.randrange(10000)
+            order = [None, ("7", 7)]
+            r.shuffle(order)
+            for j, dv in enumerate(order):
+                ps = [dict(name=f"tv_{n4}", type=I, default=dv[0] if dv else None, default_value=dv[1] if dv else None)]
+                cls["methods"].append(self.gen_function(cls, "method", name=f"tws{j}_{n4}", ret=I, params=ps, const=False,
+                                                        indent=ind))
         if getattr(self, "ext", False) and r.random() < 0.3:
             # (v3) arithmetic operators with a floating-point / integer operand (true-divide, in-place, modulo slots)
             for op in r.sample(["/", "/=", "*d", "%"], r.choice([1, 2])):
@@ -779,6 +795,13 @@ class Gen:
             self.gen_property(cls, ind)
         if r.random() < 0.35:
             self.gen_seq(cls, ind)
+        if self.ext is True and r.random() < 0.3:
+            # (v3) constructors and destructor declared after the methods (the inference of inherited virtual-ness must
+            # not depend on a constructor having been seen first)
+            blk = self.h[h_ctor0:h_ctor1]
+            del self.h[h_ctor0:h_ctor1]
+            self.h += blk
+            cls["ctors_last"] = True
         self.h.append("public:")
         self.h.append(f"{ind}unsigned long long st_{name};")
         self.h.append(f"{ind}explicit {name}(vf::PoolTag);")
